@@ -213,7 +213,7 @@ func ruleTagFraming(c *Ctx) {
 		}
 		c.Decide(good, "writeTag:header-11-bytes", p.InstrPos(hdr), "header write is tagHeader[:11]", msg)
 		f, base, okf := fieldLoad(dat.Call.Args[0])
-		c.Decide(okf && f.Name() == "Data" && origin(base) == wt.Params[1], "writeTag:data-follows", p.InstrPos(dat), "tag.Data written after the header", "the second write is not tag.Data of the tag parameter")
+		c.Decide(okf && theProgram.baseFieldName(f) == "Data" && origin(base) == wt.Params[1], "writeTag:data-follows", p.InstrPos(dat), "tag.Data written after the header", "the second write is not tag.Data of the tag parameter")
 		// size field: PutUint32(tagHeader[0:], uint32(len(tag.Data)))
 		sizeOK := false
 		instrs(wt, func(ins ssa.Instruction) {
@@ -233,7 +233,7 @@ func ruleTagFraming(c *Ctx) {
 				return
 			}
 			if lc, ok := stripConv(call.Call.Args[2]).(*ssa.Call); ok && calleeName(&lc.Call) == "builtin.len" {
-				if f, base, ok := fieldLoad(lc.Call.Args[0]); ok && f.Name() == "Data" && origin(base) == wt.Params[1] {
+				if f, base, ok := fieldLoad(lc.Call.Args[0]); ok && theProgram.baseFieldName(f) == "Data" && origin(base) == wt.Params[1] {
 					sizeOK = true
 				}
 			}
@@ -259,7 +259,7 @@ func ruleTagFraming(c *Ctx) {
 			l = b.X
 		}
 		if lc, ok := l.(*ssa.Call); ok && ok1 && k == ths && calleeName(&lc.Call) == "builtin.len" {
-			if f, _, ok := fieldLoad(lc.Call.Args[0]); ok && f.Name() == "Data" {
+			if f, _, ok := fieldLoad(lc.Call.Args[0]); ok && theProgram.baseFieldName(f) == "Data" {
 				szOK = true
 			}
 		}
@@ -396,7 +396,7 @@ func ruleTSRebaseGuarded(c *Ctx) {
 				return
 			}
 			f, base, ok := fieldLoad(b.X)
-			if !ok || f.Name() != "Timestamp" || !typeIs(base.Type(), modRel("av/format/flv"), "Tag") {
+			if !ok || theProgram.baseFieldName(f) != "Timestamp" || !typeIs(base.Type(), modRel("av/format/flv"), "Tag") {
 				return
 			}
 			n++
@@ -634,7 +634,7 @@ func rulePacketizerFields(c *Ctx) {
 		// Body = frame.Payload
 		if st := one("Body", sp.dataType); st != nil {
 			f, base, ok := fieldLoad(st.Val)
-			c.Decide(ok && f.Name() == "Payload" && origin(base) == frame, key("body"), p.InstrPos(st), "Body is the frame's payload itself", "the tag body is not the source frame's payload (verbatim)")
+			c.Decide(ok && theProgram.baseFieldName(f) == "Payload" && origin(base) == frame, key("body"), p.InstrPos(st), "Body is the frame's payload itself", "the tag body is not the source frame's payload (verbatim)")
 		}
 		// Data = Marshal result; DataSize = len(data)
 		if st := one("Data", "Tag"); st != nil {
@@ -756,7 +756,7 @@ func keyConsts(fn *ssa.Function, isKeyMark func(ins ssa.Instruction) bool) (eq [
 				return
 			}
 			f, _, ok := fieldAddr(st.Addr)
-			if !ok || f.Name() != "FrameType" {
+			if !ok || theProgram.baseFieldName(f) != "FrameType" {
 				return
 			}
 			if phi, ok := stripConv(st.Val).(*ssa.Phi); ok {
@@ -835,7 +835,7 @@ func ruleKeyframeConsts(c *Ctx) {
 			return false
 		}
 		f, _, ok := fieldAddr(st.Addr)
-		if !ok || f.Name() != "FrameType" {
+		if !ok || theProgram.baseFieldName(f) != "FrameType" {
 			return false
 		}
 		k, ok := evalInt(st.Val)
@@ -885,7 +885,7 @@ func ruleKeyframeConsts(c *Ctx) {
 			return
 		}
 		f, _, ok := fieldAddr(st.Addr)
-		if !ok || f.Name() != "key" {
+		if !ok || theProgram.baseFieldName(f) != "key" {
 			return
 		}
 		if b, ok := st.Val.(*ssa.BinOp); ok && b.Op == token.EQL {
